@@ -367,8 +367,11 @@ pub fn abs_variant(prog: &J, kind: &str, r: &mut Rng) -> Option<J> {
         }
         // an unused variable (whose evaluation would even be an error) never matters
         "UN" => {
-            let l = match r.below(3) {
+            let l = match r.below(5) {
                 0 => json!({"n":fresh,"v":{"r":"val","v":{"t":"int","v":7}}}),
+                // a function call that cannot be evaluated: lazily bound, never used, never matters
+                3 => json!({"n":fresh,"v":{"r":"fn","f":"parse_int","a":[{"r":"val","v":{"t":"str","v":[97,98,99]}}]}}),
+                4 => json!({"n":fresh,"v":{"r":"fn","f":"parse_boolean","a":[{"r":"q","q":[{"p":"this"}],"all":true}]}}),
                 1 => json!({"n":fresh,"v":{"r":"q","q":[{"p":"key","k":[122,122]},{"p":"idx"}],"all":true}}),
                 _ => json!({"n":fresh,"v":{"r":"q","q":[{"p":"var","n":"undefined_var"}],"all":true}}),
             };
